@@ -42,6 +42,9 @@ type IDCase struct {
 	// without 253 elements being drawn and stored
 	RepIn  int `json:"rep_in,omitempty"`
 	RepOut int `json:"rep_out,omitempty"`
+	// Refused (ninth round): calls the library refuses, made on the freshly built quote object
+	// before it is used; the quote must go on answering with the rates it was built with
+	Refused []ref.C11Refused `json:"refused,omitempty"`
 }
 
 func repIn(last ref.In, j int) ref.In {
@@ -145,7 +148,28 @@ func checkID(ctx *pbt.Ctx, c IDCase) error {
 	fq := lq.Q
 	ctx.After(lq.Unmodified)
 	ctx.Labelf("quote-build=%d", c.Quote.Build)
-	ctx.Key(ref.Encode(m, true), []byte(fmt.Sprint(c.Quote.Std, c.Quote.Data)))
+	ctx.Key(ref.Encode(m, true), []byte(fmt.Sprint(c.Quote.Std, c.Quote.Data, c.Refused)))
+	// a refused update is not an update: the model of the quote stays what it is
+	if len(c.Refused) > 4 {
+		ctx.Discard("too many refused calls")
+		return nil
+	}
+	for _, r := range c.Refused {
+		if !ref.C11RefusedOK(r) {
+			ctx.Discard("malformed refused call")
+			return nil
+		}
+	}
+	for i, r := range c.Refused {
+		switch err := ref.C11RefusedApply(lq, r); {
+		case errors.Is(err, ref.C11ErrAccepted):
+			ctx.Label("refused-call-was-accepted:" + r.Kind) // not a refusal: what the quote holds now is not this check's business
+			return nil
+		case err != nil:
+			return fmt.Errorf("refused call %d (%s): %v", i+1, ref.C11RefusedLabel(r), err)
+		}
+		ctx.Label(ref.C11RefusedLabel(r))
+	}
 
 	// -- 1. partition of bytes ------------------------------------------------
 	want := ref.FeeSizesOf(m)
@@ -731,6 +755,11 @@ func genIDCase(t *rapid.T) IDCase {
 		p := rapid.Uint64Range(0, rem).Draw(t, "part")
 		c.Tx.In[i].PrevSats = p
 		rem -= p
+	}
+	if rapid.IntRange(0, 7).Draw(t, "refused") == 5 { // calls the library refuses, between building the quote and using it
+		for i, n := 0, rapid.IntRange(1, 2).Draw(t, "nrefused"); i < n; i++ {
+			c.Refused = append(c.Refused, gen.C11Refused(t, "refused"))
+		}
 	}
 	return c
 }
